@@ -235,8 +235,32 @@ def shard_chains(arg):
     return acc
 
 
+def judge_identity(case):
+    """lists in which one Result OBJECT occurs more than once (weighting a
+    run twice): every list position counts"""
+    t = {"stats": (1.0, 2.0), "arrays": [("a", case["len"]), ("b", 2)],
+         "skeys": ("rmse", "mean")}
+    objs = [build(t, i) for i in range(3)]
+    rs = [objs[i] for i in case["pattern"]]
+    keys = [{"rmse", "mean"}] * len(rs)
+    return judge_rs(rs, keys, [{"a", "b"}] * len(rs))
+
+
 def repr_part(ctx):
     acc = Acc()
+    for L in (2, 3):
+        for pattern in ([0, 1, 0], [0, 0], [1, 0, 0], [0, 0, 0], [0, 1, 1],
+                        [0, 1, 2, 0]):
+            case = {"len": L, "pattern": pattern}
+            msgs, outcome = judge_identity(case)
+            acc.count("evaluations")
+            acc.count("transitions")
+            acc.count("nontrivial")
+            acc.outcome("identity:" + outcome)
+            if msgs:
+                acc.violation("merge-identity", "%s: %s" %
+                              (case, "; ".join(msgs[:2])), case,
+                              {"kind": "identity"})
     for n in (2, 3):
         for L in (1, 3):
             for rep in REPRS:
@@ -502,6 +526,8 @@ def replay(part, case):
         files = _make_result_files(os.getcwd())
         return [v["msg"] for v in iterables_part(files).violations
                 if v["case"] == case]
+    if part == "merge-identity":
+        return judge_identity(case)[0]
     if part == "merge-repr":
         return judge_repr(case)[0]
     if part == "evo_res":
